@@ -762,8 +762,8 @@ def run(ctx):
             return rng.random()
         gen_vector_case(box, precs, rng.choice([1, 2, 3, 5]), src)
 
-    n_ops = ctx.pick(2000, 34000)
-    for i in range(ctx.pick(100, 1500)):
+    n_ops = ctx.pick(2000, 22000)
+    for i in range(ctx.pick(100, 1000)):
         gen_stream()
     for i in range(n_ops):
         k = rng.random()
@@ -780,7 +780,7 @@ def run(ctx):
 
     for box, precs, n, draws in corpus_gen:
         gen_vector_case(box, precs, n, const_src(draws))
-    for _ in range(ctx.pick(500, 8000)):
+    for _ in range(ctx.pick(500, 5000)):
         gen_gen_case()
 
     ctx.rule = ("operator cases: boxes from {unit, symmetric, negative, tiny (down to 3 ulp), huge (up to +-1e300), integer-typed, lb=ub, random}, "
@@ -1293,7 +1293,7 @@ def run_level(ctx, rhist, specs=None):
         return
     sizes = ctx.pick([2, 3, 5, 8], [2, 3, 5, 8, 12, 20])
     gens = ctx.pick([1, 2, 4], [1, 2, 4, 7])
-    reps = ctx.pick(1, 4)
+    reps = ctx.pick(1, 3)
     for name in ALGOS:
         for N in sizes:
             for G in gens:
@@ -1472,7 +1472,7 @@ def doe_level(ctx, dhist, opf):
     doe.construct_df = cdf
     doe.construct_df_from_random_matrix = crand
     try:
-        for _ in range(ctx.pick(40, 600)):
+        for _ in range(ctx.pick(40, 400)):
             mixed_history()
         level_case("ff3", [(0.0, 1.0), (-5, 5)])
         level_case("bb", [(0.0, 1.0), (-7.5, -2.25), (1e6, 1e12)])
@@ -1480,7 +1480,7 @@ def doe_level(ctx, dhist, opf):
         scaled_case("halton", [(0.0, 1.0), (-7.5, -2.25)], 6)
         scaled_case("lhs", [(1e15, 1e15 + 4.0), (0.0, 1e-12)], 3)
         grid_case([(0.0, 1.0), (-5, 5)], 3)
-        for _ in range(ctx.pick(60, 1000)):
+        for _ in range(ctx.pick(60, 700)):
             k = rng.random()
             if k < 0.15:
                 level_case("ff2", doe_box(rng.choice([1, 2, 3, 4, 5])))
